@@ -39,7 +39,7 @@ def plan(tier, seed):
 def finalize(agg, tier):
     c = agg["counters"]
     out = []
-    need = ["zero_divisor_operands", "carry_chain_operands", "near_square_operands", "from_bytes_twice", "calls:AESNI_start_operation", "calls:AES_start_operation", "calls:ghash_clmul", "calls:ghash_portable",
+    need = ["zero_divisor_operands", "carry_chain_operands", "near_square_operands", "zero_to_the_zero_operands", "from_bytes_twice", "calls:AESNI_start_operation", "calls:AES_start_operation", "calls:ghash_clmul", "calls:ghash_portable",
             "int_ops_compared", "transcript_lines:gmp", "transcript_lines:custom", "transcript_lines:native"]
     for n in need:
         if not c.get(n):
@@ -457,6 +457,12 @@ def w_int_inproc(spec, ctx):
                 if op == "mult_modulo_bytes":
                     args[1] = v
                 ctx.count("carry_chain_operands")
+        if op.startswith("pow3") and isinstance(args[-1], int) and args[-1] > 1 and rng.random() < 0.08:
+            # the corner where two shortcuts meet: base = 0 (mod m) and exponent 0 (the empty product is 1), and its neighbours
+            m_ = args[-1]
+            args[0] = rng.choice([0, m_, -m_, 5 * m_, 0, 1, m_ + 1, m_ - 1])
+            args[1] = rng.choice([0, 0, 0, 1, 2])
+            ctx.count("zero_to_the_zero_operands")
         if op in ("sqrt", "is_perfect_square") and rng.random() < 0.5:
             args[0] = intops.near_square(rng)
             ctx.count("near_square_operands")
